@@ -11,6 +11,23 @@ def run(ctx):
     ctx.build()
     ctx.assume("classes are keyed by the specification's own canonical form of D-sets (CanonSet), a complete "
                "invariant by construction; its symbol version is model-checked in MC_Canon")
+    # the generic backtracking iterator (shared with C07 and C12): machine model-checked on every tree with <= 5 (6) nodes,
+    # then every tree with <= 6 (7) nodes replayed through the real BackTrackIterator
+    ctx.mc("MC_BackTrack", cfg="MC_BackTrack" if ctx.quick else "MC_BackTrack_6", workers=12,
+           universe="BackTrack machine on every tree with <= %d nodes and every extract pattern" % (5 if ctx.quick else 6))
+    p, n = ctx.gen("Gen_BackTrack", "trees.ndjson", cfg="Gen_BackTrack" if ctx.quick else "Gen_BackTrack_t")
+    out = ctx.dsv("C06", "backtrack", p)
+    r = json.loads(out.strip().splitlines()[-1])
+    ctx.evaluations += r["comparisons"]
+    ctx.traces += r["cases"]
+    ctx.nontrivial_extra += r["nontrivial"]
+    ctx.notes.extend(r["conformance"])
+    ctx.exhaustive_universes.append(f"every rooted ordered tree of Gen_BackTrack ({n} cases) through BackTrackIterator")
+    if r["mismatches"]:
+        m = r["mismatches"][0]
+        case = m.pop("case")
+        raise Violation(f"BackTrackIterator does not yield every extractable node exactly once: {json.dumps(m)[:300]}",
+                        replay_lines=[json.dumps(case)], replay_name="tree.ndjson")
     runs = "1:7,2:6,3:5" if ctx.quick else "1:8,2:7,3:5"
     ev = ctx.work / "events.ndjson"
     ctx.dsv("C06", "drive", "--out", ev, "--runs", runs, timeout=3600)
